@@ -170,7 +170,8 @@ def build_harness(race=False):
 
 
 def run_generators(binp, prop, outdir, seed, tier, extra_env=None):
-    env = dict(GOENV, VERIF_OUT=outdir, VERIF_SEED=str(seed), VERIF_TIER=tier, VERIF_REPO=REPO, VERIF_CORPUS=os.path.join(VERIF, 'corpus'))
+    env = dict(GOENV, VERIF_OUT=outdir, VERIF_SEED=str(seed), VERIF_TIER=tier, VERIF_REPO=REPO, VERIF_CORPUS=os.path.join(VERIF, 'corpus'),
+               VERIF_E2E_CACHE=os.path.join(WORK, 'e2e-cache'))
     env.update(prop.get('env', {}))
     if extra_env:
         env.update(extra_env)
@@ -329,6 +330,8 @@ def evaluate(prop, outdir):
     for cf in sorted(glob.glob(os.path.join(outdir, '*.cases'))):
         if prop.get('case_files') is not None and os.path.basename(cf)[:-6] not in prop['case_files'] and os.path.basename(cf) != 'corpus.cases':
             continue
+        if os.path.basename(cf)[:-6] in prop.get('case_exclude', ()):
+            continue
         c, mism, tg = run_driver(cf)
         total += c
         for t, n in tg.items():
@@ -341,8 +344,13 @@ def evaluate(prop, outdir):
         mp = cf[:-6] + '.meta.json'
         if os.path.exists(mp):
             metas[os.path.basename(cf)[:-6]] = json.load(open(mp))
+    def direct_wanted(name):
+        if prop.get('direct_files') is not None:
+            return name in prop['direct_files']
+        pre = prop.get('direct_exclude_prefix')
+        return not (pre and name.startswith(pre) and name not in prop.get('direct_include', ()))
     for dp in sorted(glob.glob(os.path.join(outdir, '*.direct.json'))):
-        if prop.get('direct_files') is not None and os.path.basename(dp)[:-12] not in prop['direct_files']:
+        if not direct_wanted(os.path.basename(dp)[:-12]):
             continue
         dm = json.load(open(dp))
         total += int(dm.get('cases', 0))
@@ -350,7 +358,7 @@ def evaluate(prop, outdir):
     viol_files = sorted(glob.glob(os.path.join(outdir, '*.violations.json')))
     direct = []
     for vf in viol_files:
-        if prop.get('direct_files') is not None and os.path.basename(vf)[:-16] not in prop['direct_files'] and os.path.basename(vf) != 'race.violations.json':
+        if not direct_wanted(os.path.basename(vf)[:-16]) and os.path.basename(vf) != 'race.violations.json':
             continue
         direct += json.load(open(vf))
     return dict(total=total, tags=tags, monitor=monitor, corr=corr, metas=metas, direct=direct)
